@@ -46,7 +46,21 @@ def _with_lines(code) -> dict:
                     # range, where no real exception can be delivered either
                     entry_nops.add(ins.offset)
                 after_with = False
-        got["_entry_nops"] = entry_nops
+        # More generally: a NOP (`try:`, `pass`) cannot raise, and the instruction that follows the end of a range
+        # protected by the exception table (the normal-path copy of a `finally` body, the clean-up of a `with`) is
+        # reached without any allocation or eval-breaker check in between - whatever real exception there could be
+        # would have been raised *inside* the range and handled.  Raising at a LINE event that starts there would leak
+        # the lock of every hand-written `acquire(); try: ... finally: release()` as well.
+        unreal = set(entry_nops)
+        for ins in dis.get_instructions(code):
+            if ins.opname == "NOP":
+                unreal.add(ins.offset)
+        try:
+            for entry in dis._parse_exception_table(code):
+                unreal.add(entry.end)
+        except Exception:  # noqa: BLE001 - private helper; without it only the explicit with/NOP rules apply
+            pass
+        got["_entry_nops"] = unreal
         _WITH_LINES[code] = got
     return got
 
